@@ -94,11 +94,69 @@ Definition run_unlocking (pk sig : bytes) (flag : N) : string :=
   out3 (show_script (from_asm (hex_of_bytes sf +++ " " +++ hex_of_bytes pk)))
        ("OK:" +++ show_bytes (push_bytes sf ++ push_bytes pk) +++ ";*") "-".
 
+(* script.build_history : one Script object grown from parsed chunks (push / push_array / from_script_bits / clone),
+   observed after every step.  The modes only differ in the library calls; the object is the concatenation of the
+   chunks' trees.  Expected values depend on the bytes accumulated so far only (independent flat tokenizer). *)
+Definition obs3 (a b c : string) : string := a +++ "," +++ b +++ "," +++ c.
+Definition obs_impl (s : list bit) : string :=
+  obs3 (show_text (to_asm false s)) (show_text (to_asm true s)) (show_bytes (to_bytes s)).
+Definition obs_spec (bs : bytes) : string :=
+  match tokenize_spec bs with
+  | TokOk ts => if forallb nonempty_push ts
+                then obs3 (show_text (render_plain ts)) (show_text (render_ext ts)) (show_bytes bs) else "*"
+  | _ => "*"
+  end.
+
+Fixpoint build_run (chunks : list string) (s : list bit) (bs : bytes) (strict : bool) (acc_i acc_s : list string) : string :=
+  match chunks with
+  | [] =>
+      let back := match from_asm (to_asm false s) with
+                  | Ok s2 => show_bytes (to_bytes s2) | Err => "ERR" | Panic => "PANIC" end in
+      let same := match from_bytes (to_bytes s) with
+                  | Ok p => if String.eqb (to_asm false p) (to_asm false s) then
+                              if String.eqb (to_asm true p) (to_asm true s) then "y" else "n" else "n"
+                  | _ => "n" end in
+      let spec_back :=
+        if strict then
+          match tokenize_spec bs with
+          | TokOk ts => if forallb minimal_tok ts then show_bytes bs else "*"
+          | _ => "*" end
+        else "*" in
+      let known := if strict then match tokenize_spec bs with
+                                  | TokOk ts => if forallb minimal_tok ts then (if existsb numeric_tok ts then "ambiguous-numeric-push" else "-") else "-"
+                                  | _ => "-" end else "-" in
+      out3 ("OK:" +++ join ";" (rev acc_i) +++ ";" +++ back +++ ";" +++ same)
+           ("OK:" +++ join ";" (rev acc_s) +++ ";" +++ spec_back +++ ";" +++ (if strict then "y" else "*")) known
+  | ch :: r =>
+      match split "." ch with
+      | [m; d] =>
+          if existsb (String.eqb m) ["p"; "a"; "n"; "c"] then
+            match expand d with
+            | Some b =>
+                match from_bytes b with
+                | Ok t =>
+                    let s' := s ++ t in
+                    let ok := match tokenize_spec b with TokOk _ => true | _ => false end in
+                    let bs' := bs ++ b in
+                    let strict' := strict && ok in
+                    build_run r s' bs' strict' (obs_impl s' :: acc_i) ((if strict' then obs_spec bs' else "*") :: acc_s)
+                | _ => "BADARG"
+                end
+            | None => "BADARG"
+            end
+          else "BADARG"
+      | _ => "BADARG"
+      end
+  end.
+Definition run_build (a : string) : string :=
+  build_run (match a with EmptyString => [] | _ => split "/" a end) [] [] true [obs_impl []] [obs_spec []].
+
 Definition run (op : string) (args : list string) : string :=
   match op, args with
   | "script.to_asm", [a] => match expand a with Some bs => run_to_asm false bs | None => "BADARG" end
   | "script.to_ext_asm", [a] => match expand a with Some bs => run_to_asm true bs | None => "BADARG" end
   | "script.from_asm", [a] => match expand a with Some bs => run_from_asm (string_of_bytes bs) | None => "BADARG" end
+  | "script.build_history", [a] => run_build a
   | "script.asm_roundtrip", [a] => match expand a with Some bs => run_roundtrip bs | None => "BADARG" end
   | "p2pkh.locking_script", [a] => match expand a with Some h => run_locking h | None => "BADARG" end
   | "p2pkh.unlocking_script", [a; b; c] =>
